@@ -13,6 +13,10 @@ pub mod fmt {
         #[verifier::external_body]
         pub fn new() -> (r: Fmt) ensures r@ == Seq::<char>::empty() { unimplemented!() }
         #[verifier::external_body]
+        pub fn lit0(self, s: &str) -> (r: Fmt) requires self@.len() == 0 ensures r@ == s@ { unimplemented!() }
+        #[verifier::external_body]
+        pub fn arg0<T: Disp>(self, t: &T) -> (r: Fmt) requires self@.len() == 0 ensures r@ == t.disp() { unimplemented!() }
+        #[verifier::external_body]
         pub fn lit(self, s: &str) -> (r: Fmt) ensures r@ == self@ + s@ { unimplemented!() }
         #[verifier::external_body]
         pub fn arg<T: Disp>(self, t: &T) -> (r: Fmt) ensures r@ == self@ + t.disp() { unimplemented!() }
